@@ -558,7 +558,7 @@ func cbor2JsonOneObject(src *bufio.Reader, dst io.Writer) {
 
 	case majorTypeNegativeInt:
 		n := decodeInteger(src)
-		dst.Write([]byte(strconv.Itoa(int(n))))
+		dst.Write([]byte(strconv.FormatInt(n, 10)))
 
 	case majorTypeByteString:
 		s := decodeString(src, false)
